@@ -404,6 +404,20 @@ def launch(argv, cwd, env, out_path, fault=None, trace=None, proc="", readdir_se
             os.chdir(cwd)
             os.environ.clear()
             os.environ.update(env)
+            if env.get("NSIM_UMASK"):
+                os.umask(int(env["NSIM_UMASK"], 8))
+            if env.get("NSIM_CPU_COUNT"):
+                # the machine's size is not an input of the build either
+                _n = int(env["NSIM_CPU_COUNT"])
+                os.cpu_count = lambda: _n
+                if hasattr(os, "sched_getaffinity"):
+                    os.sched_getaffinity = lambda pid=0: set(range(_n))
+                try:
+                    import multiprocessing as _mp
+
+                    _mp.cpu_count = lambda: _n
+                except Exception:
+                    pass
             try:
                 import time as _t
 
